@@ -394,6 +394,8 @@ class Model(Object):
         for attr in self.__dict__:
             if attr not in do_not_copy_by_ref:
                 new.__dict__[attr] = self.__dict__[attr]
+        # the copy must not record into the contexts of the original while it is built
+        new._contexts = []
         new.notes = deepcopy(self.notes)
         new.annotation = deepcopy(self.annotation)
 
